@@ -94,7 +94,14 @@ func assignTo(dec *Decoder, o interface{}, p interface{}) {
 	// written out in full - not a pointer to it
 	if v.Kind() == reflect.Ptr && !v.IsNil() {
 		switch v.Elem().Kind() {
-		case reflect.Slice, reflect.Map:
+		case reflect.Slice:
+			// ... unless the list is still being read and has not its full length yet (see
+			// preallocList): it refers to itself then, what was written can only have been a
+			// pointer to it, and a copy of the slice taken now would stay short
+			if !dec.isGrowing(reflect2.PtrOf(o)) {
+				v = v.Elem()
+			}
+		case reflect.Map:
 			v = v.Elem()
 		case reflect.Struct:
 			if dec.StructType == StructTypeValue {
